@@ -559,7 +559,6 @@ func stripFieldBase(addr ssa.Value) ssa.Value {
 	}
 }
 
-
 // pureMemo: the value stored in a cache is computed from the key alone, and the
 // key is (a conversion of) a parameter: every leaf of the value's backward slice
 // inside the function is that parameter or a constant, and every call on the way
@@ -815,6 +814,19 @@ func ruleALIAS2(c *Ctx) []Ob {
 				return
 			}
 			if _, isBuiltin := cc.Value.(*ssa.Builtin); isBuiltin {
+				return
+			}
+			// a function value made by the library itself (a closure, or what a library function
+			// returns) is library code, examined where it is written
+			libMade := len(c.deepOrigins(cc.Value)) > 0
+			for _, og := range c.deepOrigins(cc.Value) {
+				switch og.(type) {
+				case *ssa.MakeClosure, *ssa.Function:
+				default:
+					libMade = false
+				}
+			}
+			if libMade {
 				return
 			}
 			for _, a := range cc.Args {
